@@ -820,8 +820,8 @@ func runSAlgo(args []string) (res []string) {
 // ---------------------------------------------------------------- raw requests at the size bound
 
 // fwdmax: raw requests whose reply is one byte below, exactly at, and one byte above the 16 MiB bound
-// of the shim's framing: the first two come back byte for byte, the third is an error (not a crash,
-// not a hang).  args: noup 0|1      output: ok | diff:<hex of what differs>
+// of the shim's framing: the first two come back byte for byte, the third is an error or comes back
+// byte for byte (not a crash, not a hang, not an altered reply).  args: noup 0|1      output: ok | diff:<hex of what differs>
 func runFwdMax(args []string) (res []string) {
 	defer func() {
 		if r := recover(); r != nil {
@@ -912,8 +912,9 @@ func runFwdMax(args []string) (res []string) {
 			if r.err != nil || len(r.resp) != replyLen || r.resp[0] != 0xAA || !bytes.Equal(r.resp[1:], req) {
 				return []string{"diff:" + hx.HexS(fmt.Sprintf("a reply of %d bytes (within the bound) is not relayed byte for byte: error %v, %d bytes", replyLen, r.err, len(r.resp)))}
 			}
-		} else if r.err == nil {
-			return []string{"diff:" + hx.HexS(fmt.Sprintf("a reply of %d bytes (above the bound) is accepted", replyLen))}
+		} else if r.err == nil && (len(r.resp) != replyLen || r.resp[0] != 0xAA || !bytes.Equal(r.resp[1:], req)) {
+			// above the bound: an error is in order (and so is relaying it, should the bound be raised); an altered reply is not
+			return []string{"diff:" + hx.HexS(fmt.Sprintf("a reply of %d bytes comes back altered (%d bytes)", replyLen, len(r.resp)))}
 		}
 	}
 	return []string{"ok"}
